@@ -54,7 +54,7 @@ func TestZsimC09Http(t *testing.T) {
 		Property: "C09", Name: "shedding-http",
 		Run:     c09HttpRun,
 		Horizon: time.Hour,
-		Rule:    "1-4 client tasks send requests through SheddingHandler over a counting shedder that rejects on a drawn schedule; inner handlers answer drawn statuses (incl. 503), sleep, or panic; oracle: rejected => 503 and the handler did not run; admitted => exactly one Pass/Fail (Fail iff the response was 503), in-flight back to zero at the end; non-trivial = a rejection, a 503 from the handler or a panic occurred; distinct = distinct event-log fingerprint",
+		Rule:    "1-4 client tasks send requests through SheddingHandler over a counting shedder that rejects on a drawn schedule; inner handlers answer drawn statuses (incl. 503, 499, 504), sleep, or panic; oracle: rejected => 503 and the handler did not run; admitted => exactly one Pass/Fail (Fail iff the response was 503), in-flight back to zero at the end; non-trivial = a rejection, a 503 from the handler or a panic occurred; distinct = distinct event-log fingerprint",
 		Real:    []string{"api/handler.SheddingHandler", "api/internal/response.WithCodeResponseWriter"},
 		Stub:    []string{"load.Shedder (counting)", "inner handlers", "clients"},
 	})
@@ -79,6 +79,10 @@ func c09HttpRun(r *zsim.Run) {
 			w.WriteHeader(http.StatusServiceUnavailable)
 		case "500":
 			w.WriteHeader(http.StatusInternalServerError)
+		case "499":
+			w.WriteHeader(499) // what the timeout handler answers when the client has gone away
+		case "504":
+			w.WriteHeader(http.StatusGatewayTimeout)
 		case "implicit":
 			w.Write([]byte("ok"))
 		default:
@@ -93,7 +97,7 @@ func c09HttpRun(r *zsim.Run) {
 			defer func() { done++ }()
 			for i := 0; i < 2+o.Intn(6) && !r.Failed(); i++ {
 				id := fmt.Sprintf("%d-%d", c, i)
-				do := zsim.Pick(o, "200", "implicit", "503", "500", "panic")
+				do := zsim.Pick(o, "200", "implicit", "503", "500", "panic", "499", "504")
 				req := httptest.NewRequest(http.MethodGet, "http://sim/x", nil)
 				req.Header.Set("X-Req", id)
 				req.Header.Set("X-Do", do)
